@@ -264,4 +264,162 @@ theorem tagLoop_of_inRun (isList : Nat → Bool) (g : Nat) : ∀ (n f : Nat) (h 
             simp only at hd ⊢
             rw [hd]
 
+/-! ### pre-order -/
+
+/-- the caller's loop around `pre_order_iterator`, seen from inside a call (cf. `inRun`) -/
+def preRun (g : Nat) : Nat → Nat → Heap → Ptr → Except Err (List Nat × Heap)
+  | 0, _, _, _ => .error .fuel
+  | calls + 1, f, h, c =>
+    match preOrderLoop g f h c with
+    | .error e => .error e
+    | .ok (none, h1, _) => .ok ([], h1)
+    | .ok (some x, h1, c1) => prepend [x] (preRun g calls g h1 c1)
+
+theorem preRun_succ (g calls f : Nat) (h : Heap) (c : Ptr) :
+    preRun g (calls + 1) f h c =
+      match preOrderLoop g f h c with
+      | .error e => .error e
+      | .ok (none, h1, _) => .ok ([], h1)
+      | .ok (some x, h1, c1) => prepend [x] (preRun g calls g h1 c1) := by
+  rw [preRun]
+
+/-- **Morris pre-order traversal, continuation form.**  As `morris_in`, for `pre_order_iterator`: nodes are
+    returned when their thread is created, and the silent iterations (thread removal) happen at the end of
+    a sub-tree, inside the call that goes on to `k`; that call arrives at `k` with `f'` iterations left,
+    at most `size t` fewer than a full `g`. -/
+theorem morris_pre (g : Nat) (τ : Nat → Bool) : ∀ (t : Tree) (k : Ptr) (h : Heap) (m f : Nat),
+    size t + 2 ≤ g → (t ≠ .nil → 1 ≤ f) → Distinct t → (∀ a, k = some a → a ∉ inorder t) →
+    ReprK τ h t k → (∀ i, i ∈ inorder t → τ i = false) →
+    ∃ f', (t = .nil → f' = f) ∧ (t ≠ .nil → g ≤ f' + size t) ∧
+      preRun g (size t + (m + 1)) f h (rootK t k) = prepend (preorder t) (preRun g (m + 1) f' h k)
+  | .nil, k, h, m, f, _, _, _, _, _, _ => by
+    refine ⟨f, fun _ => rfl, fun c => absurd rfl c, ?_⟩
+    simp [rootK, preorder, size, prepend_nil]
+  | .node .nil x r, k, h, m, f, hg, hf, nd, hk, ⟨h1, _, h4⟩, hτ => by
+    -- no left sub-tree: x is returned at once, the next call starts at the right sub-tree
+    have d := distinct_node nd
+    have hf' := hf (by simp)
+    have hτx : τ x = false := hτ x mem_root
+    obtain ⟨f0, rfl⟩ : ∃ f0, f = f0 + 1 := ⟨f - 1, by omega⟩
+    have hcalls : size (.node .nil x r) + (m + 1) = (size r + (m + 1)) + 1 := by simp only [size]; omega
+    have hstep : preOrderLoop g (f0 + 1) h (some x) = .ok (some x, h, rootK r k) := by
+      simp [preOrderLoop, h1, root, hτx]
+    obtain ⟨f', hf1, hf2, ih⟩ := morris_pre g τ r k h m g (by simp only [size] at hg; omega)
+      (fun _ => by omega) d.right
+      (fun a ha hm => hk a ha (mem_right hm)) h4
+      (fun i hi => hτ i (mem_right hi))
+    refine ⟨f', fun c => by simp at c, fun _ => ?_, ?_⟩
+    · by_cases hr : r = .nil
+      · subst hr; have := hf1 rfl; simp only [size]; omega
+      · have := hf2 hr; simp only [size]; omega
+    · rw [hcalls, rootK, preRun_succ, hstep]
+      simp only
+      rw [ih, prepend_append]
+      simp [preorder]
+  | .node (.node ll y lr) x r, k, h, m, f, hg, hf, nd, hk, ⟨h1, h3, h4⟩, hτ => by
+    have d := distinct_node nd
+    have hf' := hf (by simp)
+    have hτx : τ x = false := hτ x mem_root
+    obtain ⟨f0, rfl⟩ : ∃ f0, f = f0 + 1 := ⟨f - 1, by omega⟩
+    have hszl : size (.node ll y lr) ≤ g := by simp only [size] at hg ⊢; omega
+    -- first arrival at x: the thread is created and x is returned; the next call starts at the left child
+    obtain ⟨hfp, np, hnp, hnpr⟩ := findPred_spec ll y lr h x none g hszl d.x_not_left (Or.inl rfl) h3
+    have hpx : rightmost (.node ll y lr) ≠ x := by
+      intro e; apply d.x_not_left; rw [← e]; exact rightmost_mem ll y lr
+    have hstep1 : preOrderLoop g (f0 + 1) h (some x) =
+        .ok (some x, setRight h (rightmost (.node ll y lr)) (some x), some y) := by
+      rw [preOrderLoop]
+      simp only [h1, root, hτx, hfp, hnp, hnpr]
+      simp
+    have hrep1 : ReprK τ (setRight h (rightmost (.node ll y lr)) (some x)) (.node ll y lr) (some x) :=
+      reprK_setRight ll y lr h none (some x) d.left h3
+    obtain ⟨f1, _, hf1, ih1⟩ := morris_pre g τ (.node ll y lr) (some x) _ (size r + m) g
+      (by simp only [size] at hg ⊢; omega) (fun _ => by omega) d.left
+      (fun a ha hm => by cases ha; exact d.x_not_left hm) hrep1
+      (fun i hi => hτ i (mem_left hi))
+    have hf1' := hf1 (by simp)
+    -- second arrival at x, inside the call that finished the left sub-tree: the thread is removed
+    -- silently and the walk goes on to the right sub-tree in the original heap
+    obtain ⟨hfp2, np2, hnp2, hnpr2⟩ := findPred_spec ll y lr _ x (some x) g hszl d.x_not_left (Or.inr rfl) hrep1
+    have hx2 : setRight h (rightmost (.node ll y lr)) (some x) x = some ⟨some y, false, rootK r k⟩ := by
+      simp only [setRight, upd, Ne.symm hpx, if_false]
+      simpa [root, hτx] using h1
+    have hback : setRight (setRight h (rightmost (.node ll y lr)) (some x)) (rightmost (.node ll y lr)) none = h := by
+      funext i
+      by_cases hi : i = rightmost (.node ll y lr)
+      · subst hi
+        cases np with
+        | mk npl npt npr =>
+          simp only at hnpr; subst hnpr
+          simp [setRight, upd, hnp]
+      · simp [setRight, upd, hi]
+    have hx3 : h x = some ⟨some y, false, rootK r k⟩ := by simpa [root, hτx] using h1
+    obtain ⟨f2, rfl⟩ : ∃ f2, f1 = f2 + 1 := ⟨f1 - 1, by simp only [size] at hg hf1'; omega⟩
+    have hstep2 : preOrderLoop g (f2 + 1) (setRight h (rightmost (.node ll y lr)) (some x)) (some x) =
+        preOrderLoop g f2 h (rootK r k) := by
+      rw [preOrderLoop]
+      simp only [hx2, hfp2, hnp2, hnpr2, if_true, hback, hx3]
+    obtain ⟨f', hf3, hf4, ih2⟩ := morris_pre g τ r k h m f2 (by simp only [size] at hg; omega)
+      (fun _ => by simp only [size] at hg hf1'; omega) d.right
+      (fun a ha hm => hk a ha (mem_right hm)) h4
+      (fun i hi => hτ i (mem_right hi))
+    refine ⟨f', fun c => by simp at c, fun _ => ?_, ?_⟩
+    · by_cases hr : r = .nil
+      · subst hr; have := hf3 rfl; simp only [size] at hf1' ⊢; omega
+      · have := hf4 hr; simp only [size] at hf1' ⊢; omega
+    · have hcalls : size (.node (.node ll y lr) x r) + (m + 1) = (size (.node ll y lr) + (size r + m + 1)) + 1 := by
+        simp only [size]; omega
+      rw [hcalls, rootK, preRun_succ, hstep1]
+      simp only
+      have ih1' := ih1
+      simp only [rootK] at ih1'
+      rw [ih1']
+      have hrun2 : preRun g (size r + m + 1) (f2 + 1) (setRight h (rightmost (.node ll y lr)) (some x)) (some x) =
+          preRun g (size r + m + 1) f2 h (rootK r k) := by
+        rw [preRun_succ, preRun_succ, hstep2]
+      rw [hrun2, show size r + m + 1 = size r + (m + 1) from by omega, ih2, prepend_append, prepend_append]
+      simp [preorder]
+
+/-- the model's caller loop `drain` around a pre-order iterator yields what `preRun` yields -/
+theorem drain_of_preRun (isList : Nat → Bool) (g : Nat) : ∀ (n f : Nat) (h : Heap) (c : Ptr) (it : Iter)
+    (out : List Nat) (h' : Heap), it.next = .preOrder → preRun g n f h c = .ok (out, h') →
+    ∃ out' it', (match preOrderLoop g f h c with
+        | .error e => (.error e : Except Err (List (Nat × Ptr) × Heap × Iter))
+        | .ok (r, h1, c1) => drain isList g n h1 { it with curr := c1 } r) = .ok (out', h', it') ∧
+      out'.map Prod.fst = out
+  | 0, _, _, _, _, _, _, _, e => by simp [preRun] at e
+  | n + 1, f, h, c, it, out, h', hit, e => by
+    obtain ⟨itn, itc, itp⟩ := it
+    simp only at hit; subst hit
+    rw [preRun] at e
+    cases hloop : preOrderLoop g f h c with
+    | error err => rw [hloop] at e; simp at e
+    | ok res =>
+      obtain ⟨r, h1, c1⟩ := res
+      rw [hloop] at e
+      cases r with
+      | none =>
+        simp only [Except.ok.injEq, Prod.mk.injEq] at e
+        obtain ⟨rfl, rfl⟩ := e
+        exact ⟨[], ⟨.preOrder, c1, itp⟩, by simp [drain], rfl⟩
+      | some x =>
+        simp only at e
+        cases hrest : preRun g n g h1 c1 with
+        | error err => rw [hrest] at e; simp [prepend] at e
+        | ok res2 =>
+          obtain ⟨out2, h2⟩ := res2
+          rw [hrest] at e
+          simp only [prepend, Except.ok.injEq, Prod.mk.injEq] at e
+          obtain ⟨rfl, rfl⟩ := e
+          obtain ⟨out2', it', hd, hm⟩ := drain_of_preRun isList g n g h1 c1 ⟨.preOrder, c1, itp⟩ out2 h2 rfl hrest
+          refine ⟨(x, itp) :: out2', it', ?_, by simp [hm]⟩
+          simp only [drain, next, preOrderIterator]
+          cases hl2 : preOrderLoop g g h1 c1 with
+          | error err => rw [hl2] at hd; simp at hd
+          | ok res3 =>
+            obtain ⟨r3, h3, c3⟩ := res3
+            rw [hl2] at hd
+            simp only at hd ⊢
+            rw [hd]
+
 end Librfn.Lemmas.Bintree
